@@ -497,8 +497,12 @@ def check(ctx, case):
         # polling resumes: the modules using the communicator are polled again right after every reconnect (not only at their
         # next regular turn)
         established = world.idents if case.get('ident') and case['io'] == 'string' else world.accepted
+        polls_seen = [tc for tc, cmd in world.commands if cmd.strip().rstrip(b'.') == b'p']
         for k, t in enumerate(established[1:], 1):
-            if t + TIMEOUT + 1 < out.get('end_time', 0) and not any(t <= p <= t + TIMEOUT + 1 for p in out['dev_polls']):
+            # (a poll under way at the time of the reconnect - begun before, waiting for the callers holding the communicator - whose
+            # command reaches the device on the new connection is polling resumed as well)
+            straddling = any(tc >= t and max([p for p in out['dev_polls'] if p <= tc] or [tc]) < t for tc in polls_seen)
+            if t + TIMEOUT + 1 < out.get('end_time', 0) and not straddling and not any(t <= p <= t + TIMEOUT + 1 for p in out['dev_polls']):
                 nxt = min([p for p in out['dev_polls'] if p > t] or [float('inf')])
                 ctx.finding(f'polling-not-resumed-after-reconnect:{"first" if k == 1 else "later"}', case,
                             f'reconnect {k} at {t - s.t0:.2f}: next poll at {nxt - s.t0:.2f}')
